@@ -152,6 +152,12 @@ def handmade_contract():
         [("PUSH", 8)] + a(1) + a(0) + ["EXP", "EQ", ("PUSH", 4)] + a(0) + ["LT", "AND", ("PUSH", 4)] + a(1) + ["LT", "AND", ("PUSHL", "bad"), "JUMPI", "STOP",
                                                                                                                ("LABEL", "bad")] + e2e.panic(1),
         ["a0**a1 == 8 && a0<4 && a1<4"], ["exp"], "Panic(1)")
+    # narrow signed parameters: the only failing input is negative (a sign-extended word)
+    add("check_neg(int128)", a(0) + [("PUSH", (1 << 256) - 5, 32), "EQ", ("PUSHL", "bad"), "JUMPI", "STOP", ("LABEL", "bad")] + e2e.panic(1),
+        ["a0 == -5"], ["plain"], "Panic(1)")
+    add("check_neg8(int8,uint8)", a(0) + [("PUSH", (1 << 256) - 1, 32), "EQ"] + a(1) + [("PUSH", 200), "EQ", "AND", ("PUSHL", "bad"), "JUMPI", "STOP",
+                                                                                   ("LABEL", "bad")] + e2e.panic(1),
+        ["a0 == -1 && a1 == 200"], ["plain"], "Panic(1)")
     return e2e.Spec("H0", fns=fns), metas
 
 
